@@ -1,4 +1,4 @@
-// @unit id=v_streams props=C19,C17,C07,C15,C08 tier=quick
+// @unit id=v_streams props=C19,C17,C07,C15,C09,C08 tier=quick
 // Verus contracts on the REAL bodies of src/proto/streams/streams.rs `drop_stream_ref` and `maybe_cancel` (extracted on
 // every run): what happens when the application drops a handle on a stream (C19 "once the application has dropped its
 // handles the endpoint retains nothing", C17 implicit reset of a stream nobody listens to any more).
@@ -86,6 +86,27 @@ impl SStore {
             },
     { unimplemented!() }
 
+    /// the record stored under this stream id, if any
+    pub uninterp spec fn spec_find(self, id: StreamId) -> Option<Stream>;
+
+    /// Store::find_mut(&id) (owned model)
+    #[verifier::external_body]
+    pub fn find_mut(&mut self, id: &StreamId) -> (r: Option<Stream>)
+        ensures
+            r == old(self).spec_find(*id),
+            match r {
+                Some(s) => s.id == *id && final(self).held() == old(self).held() + 1,
+                None => final(self).held() == old(self).held(),
+            },
+    { unimplemented!() }
+
+    /// a Ptr that goes out of scope with the stream exactly as it was found
+    #[verifier::external_body]
+    pub fn put_back_same(&mut self, stream: Stream, s0: Ghost<Stream>)
+        requires stream == s0@,
+        ensures final(self).held() == old(self).held() - 1,
+    { unimplemented!() }
+
     /// a visited stream that the function leaves alone goes back EXACTLY as it was, and only if the rule says so:
     /// C15 — streams at or below the peer's last-stream-id, and streams the peer initiated, run to completion
     #[verifier::external_body]
@@ -105,6 +126,20 @@ impl Counts {
             stream.state.inner == s0@.state.after_teardown(err@),
             stream.recv_task is None && stream.push_task is None && stream.send_task is None,
             stream.pending_send@.len() == 0,
+        ensures
+            final(store).held() == old(store).held() - 1,
+            *final(self) == (Counts { transitions: Ghost(old(self).transitions@ + 1), ..*old(self) }),
+    { unimplemented!() }
+}
+
+impl StreamId {
+    pub fn is_zero(&self) -> (r: bool) ensures r == (self.0 == 0) { self.0 == 0 }
+}
+
+impl Counts {
+    /// Counts::transition_after, plain (no obligation on the stream): counts the transition
+    #[verifier::external_body]
+    pub fn transition_after_any(&mut self, stream: Stream, is_reset_counted: bool, store: &mut SStore)
         ensures
             final(store).held() == old(store).held() - 1,
             *final(self) == (Counts { transitions: Ghost(old(self).transitions@ + 1), ..*old(self) }),
@@ -211,9 +246,22 @@ impl PeerDyn {
     { unimplemented!() }
 }
 
-pub struct Recv { pub last_processed_id: StreamId, pub tag: u8 }
+pub struct Recv { pub last_processed_id: StreamId, pub max_stream_id: StreamId, pub tag: u8 }
 impl Recv {
     pub fn last_processed_id(&self) -> (r: StreamId) ensures r == self.last_processed_id { self.last_processed_id }
+    pub fn max_stream_id(&self) -> (r: StreamId) ensures r == self.max_stream_id { self.max_stream_id }
+
+    /// Recv::recv_reset (verified in unit v_recv): over the pending-accept reset quota => connection error
+    /// ENHANCE_YOUR_CALM and nothing changes; otherwise the stream records the peer's reset (a stream that is closed with
+    /// nothing queued keeps its cause) and all three waiters are woken
+    #[verifier::external_body]
+    pub fn recv_reset(&mut self, frame: RReset, stream: &mut Stream, counts: &mut Counts) -> (r: Result<(), Error>)
+        ensures
+            *final(self) == *old(self),
+            final(counts).transitions@ == old(counts).transitions@ && final(counts).cancelled@ == old(counts).cancelled@ && final(counts).peer == old(counts).peer,
+            r is Err ==> r == Err::<(), Error>(Error::GoAway(Reason::ENHANCE_YOUR_CALM, Initiator::Library)) && *final(stream) == *old(stream),
+            r is Ok ==> final(stream).state.closed() && final(stream).id == old(stream).id && final(stream).key == old(stream).key,
+    { unimplemented!() }
 
     /// Recv::recv_eof (verified in unit v_recv): the stream is failed with a broken-pipe I/O error unless it already ended
     #[verifier::external_body]
@@ -252,6 +300,12 @@ impl Recv {
 pub struct Actions { pub recv: Recv, pub send: Send, pub task: Option<Waker>, pub conn_error: Option<Error> }
 
 impl Actions {
+    /// Actions::ensure_not_idle: id rules of RFC 9113 5.1.1 (Kani units send_ids / recv_ids / inner_recv_reset_unknown_stream)
+    #[verifier::external_body]
+    pub fn ensure_not_idle(&mut self, peer: PeerDyn, id: StreamId) -> (r: Result<(), Reason>)
+        ensures *final(self) == *old(self),
+    { unimplemented!() }
+
     /// Actions::clear_queues: drains the scheduler queues after every stream was failed (each popped stream goes through
     /// Counts::transition; not verified here)
     #[verifier::external_body]
@@ -382,6 +436,38 @@ impl SInner {
     //@spec         r is Ok,
     //@spec         final(self).store.held() == old(self).store.held(),
     //@spec         final(self).actions.conn_error == (if old(self).actions.conn_error is Some { old(self).actions.conn_error } else { Some(Error::Io) }),
+    //@end
+}
+
+impl SInner {
+    // C17 / C09 / C15: RST_STREAM from the peer.  Stream 0 => connection PROTOCOL_ERROR; beyond OUR GOAWAY cut-off =>
+    // ignored; unknown stream => the idle rule decides; a stream still waiting to be opened (never announced to the peer)
+    // => connection PROTOCOL_ERROR and the stream is untouched; otherwise the stream is CLOSED afterwards (the real
+    // `assert!`, an obligation here) and goes through Counts::transition_after — also when the reset quota turns it into a
+    // connection error.
+    //@extract src/proto/streams/streams.rs Inner::recv_reset
+    //@subst_re fn recv_reset<B>\(\s*&mut self,\s*send_buffer: &SendBuffer<B>,\s*frame: frame::Reset,\s*\) -> Result<\(\), Error>=>fn recv_reset(&mut self, send_buffer: &mut SendBuf, frame: RReset) -> Result<(), Error>
+    //@subst .map_err(Error::library_go_away)=>.map_err_go_away()
+    //@subst_re Some\(stream\) => stream,\s*None => \{ ==>> Some(stream) => stream, None => { proof { assert(self.store.held() == old(self).store.held()); }
+    //@subst if stream.is_pending_open {=>let ghost s0 = stream; if stream.is_pending_open { self.store.put_back_same(stream, Ghost(s0));
+    //@subst_re let mut send_buffer = send_buffer\.inner\.lock\(\)\.unwrap\(\);\s*let send_buffer = &mut \*send_buffer;\s*let actions = &mut self\.actions;=>
+    //@subst_re self\.counts\.transition\(stream, \|counts, stream\| \{ ==>> { let mut stream = stream; let is_pending_reset = stream.is_pending_reset_expiration(); let res_final = {
+    //@subst actions.recv.recv_reset(frame, stream, counts)?;=>let _rr = self.actions.recv.recv_reset(frame, &mut stream, &mut self.counts); if let Err(e) = _rr { Err(e) } else {
+    //@subst actions.send.handle_error(send_buffer, stream, counts);=>self.actions.send.handle_error(send_buffer, &mut stream, &mut self.counts);
+    //@subst_re Ok\(\(\)\)\s*\}\)(\s*\}\s*)$ ==>> Ok(()) } }; self.counts.transition_after_any(stream, is_pending_reset, &mut self.store); res_final }\1
+    //@ret r
+    //@spec     ensures
+    //@spec         final(self).store.held() == old(self).store.held(),
+    //@spec         frame.stream_id.0 == 0 ==> r == Err::<(), Error>(Error::GoAway(Reason::PROTOCOL_ERROR, Initiator::Library)) && final(self).counts.transitions@ == old(self).counts.transitions@,
+    //@spec         // C15: a peer racing with our GOAWAY is legal — frames for streams beyond the cut-off are ignored
+    //@spec         (frame.stream_id.0 != 0 && frame.stream_id.0 > old(self).actions.recv.max_stream_id.0) ==> r is Ok && final(self).counts.transitions@ == old(self).counts.transitions@,
+    //@spec         // C17: a reset for a stream we know, at or below the cut-off, IS processed (not dropped): the stream is closed
+    //@spec         // (asserted in the body) and transitioned
+    //@spec         (frame.stream_id.0 != 0 && frame.stream_id.0 <= old(self).actions.recv.max_stream_id.0
+    //@spec             && (old(self).store.spec_find(frame.stream_id) matches Some(s) && !s.is_pending_open)) ==> final(self).counts.transitions@ == old(self).counts.transitions@ + 1,
+    //@spec         // at most one stream is transitioned, and the only errors are connection errors
+    //@spec         final(self).counts.transitions@ <= old(self).counts.transitions@ + 1,
+    //@spec         r is Err ==> (r matches Err(Error::GoAway(_, Initiator::Library))),
     //@end
 }
 
